@@ -538,7 +538,7 @@ def _sanitize(o):
 
 def _judge_shard(args):
     module, cfg, path, timeout = args
-    r = run_tlc(module, cfg, env={"TRACE_FILE": path}, workers=1, timeout=timeout)
+    r = run_tlc(module, cfg, env={"TRACE_FILE": path}, workers=1, timeout=timeout, xmx="3g")
     return r
 
 
@@ -564,10 +564,10 @@ def judge(module, cfg, records, shards=None, timeout=1800, group_key=None):
     else:
         groups = [[r] for r in recs]
     # shards are balanced by BYTES and capped (a shard is deserialised whole by one JVM: a thorough run with long piece
-    # layers once filled a 2 GB heap); at most `shards` JVMs run at a time
+    # layers filled a 2 GB heap with 24 MB of text); at most `shards` JVMs run at a time
     texts = [[json.dumps(r, separators=(",", ":")) for r in g] for g in groups]
     gbytes = [sum(len(t) + 1 for t in ts) for ts in texts]
-    cap = 24 * 2 ** 20
+    cap = 6 * 2 ** 20          # (TLC values take a few hundred times the room of the JSON text they come from)
     nsh = max(1, min(len(groups), max(shards, -(-sum(gbytes) // cap))))
     buckets = [[] for _ in range(nsh)]
     btexts = [[] for _ in range(nsh)]
